@@ -118,6 +118,12 @@ void h_dec_i64(void)
 }
 void h_itoa_i64(void) { int64_t v = nondet_i64(); vx_sink_n = 0; from_integer_i64(v); }
 void h_itoa_u64(void) { uint64_t v = nondet_u64(); vx_sink_n = 0; from_integer_u64(v); }
+/* case split of the lemma on the number of digits n = 1..20 (one harness per n; together they cover every value) */
+#ifdef VX_N
+#define VX_CASE_N() __CPROVER_assume(vx_g_n == VX_N)
+#else
+#define VX_CASE_N() do { } while (0)
+#endif
 void h_int_rt(void)
 {
     /* L-INT-RT: dec_to_integer(from_integer(v)) == v for all 2^64 bit patterns, real extracted bodies, explicit induction via the ghosts */
@@ -129,6 +135,7 @@ void h_int_rt(void)
         __CPROVER_assert(n == vx_sink_n && n <= 20, "[C04] from_integer returns the count");
         vx_neg = (vx_sink[0] == '-');
         __CPROVER_assert(vx_neg == (v < 0) && vx_g_n == vx_sink_n - vx_neg, "[C04] minus sign iff negative; one character per generated digit");
+        VX_CASE_N();
         setup_dec((const char*)vx_sink + vx_neg, vx_sink_n - vx_neg);
         struct to_number_result r = dec_to_integer_i64((const char*)vx_sink, vx_sink_n, &back);
         __CPROVER_assert(r.ec == VX_ERRC_ok, "[C04][C01] L-INT-RT: the printed text is accepted");
@@ -138,6 +145,7 @@ void h_int_rt(void)
         size_t n = from_integer_u64(u);
         vx_neg = false;
         __CPROVER_assert(vx_g_n == vx_sink_n, "[C04] one character per generated digit");
+        VX_CASE_N();
         setup_dec((const char*)vx_sink, vx_sink_n);
         struct to_number_result r = dec_to_integer_u64((const char*)vx_sink, vx_sink_n, &uback);
         __CPROVER_assert(r.ec == VX_ERRC_ok, "[C04][C01] L-INT-RT: the printed text is accepted");
